@@ -7,6 +7,7 @@ mod common;
 mod stylefmt;
 mod treegen;
 mod c02;
+mod c10;
 mod c08;
 mod c03;
 mod c14;
@@ -73,6 +74,7 @@ fn main() {
     let mut out = Out::new(&out_dir);
     let extra = match prop.as_str() {
         "C02" => c02::run(&cfg, &mut out),
+        "C10" => c10::run(&cfg, &mut out),
         "C08" => c08::run(&cfg, &mut out),
         "C03" => c03::run(&cfg, &mut out),
         "C14" => c14::run(&cfg, &mut out),
